@@ -412,6 +412,35 @@ fn sim_run(args: &[String]) {
     println!("D {:016x} {}", fnv64(&a), spec.line());
 }
 
+/// agent-audit --seed S --n N : drive the real agents step by step and audit every instruction they emit.
+fn agent_audit(m: &HashMap<String, String>) {
+    use bourse_verif_harness::agents::{gen_audit_cfg, run_audit};
+    let seed: u64 = m.get("seed").and_then(|s| s.parse().ok()).unwrap_or(1);
+    let n: usize = m.get("n").and_then(|s| s.parse().ok()).unwrap_or(10);
+    for i in 0..n {
+        let mut rng = Xoroshiro128StarStar::seed_from_u64(seed.wrapping_mul(0x9E3779B97F4A7C15).wrapping_add(i as u64) ^ 0xA0D17);
+        let cfg = gen_audit_cfg(&mut rng);
+        let o = run_audit(&cfg);
+        println!("AA audit-{}-{} {} orders={} limit={} market={} cancels={} {}", seed, i,
+                 match &o.verdict { Ok(()) => "ok".to_string(), Err(e) => format!("BAD:{}", e) }, o.orders, o.limit, o.market, o.cancels, cfg.line());
+    }
+}
+
+/// momentum --seed S --n N : momentum agents on harness-controlled quotes, with the mirrored run.
+fn momentum(m: &HashMap<String, String>) {
+    use bourse_verif_harness::agents::{gen_mom_cfg, mom_steps_s, run_mom};
+    let seed: u64 = m.get("seed").and_then(|s| s.parse().ok()).unwrap_or(1);
+    let n: usize = m.get("n").and_then(|s| s.parse().ok()).unwrap_or(10);
+    for i in 0..n {
+        let mut rng = Xoroshiro128StarStar::seed_from_u64(seed.wrapping_mul(0x9E3779B97F4A7C15).wrapping_add(i as u64) ^ 0x303E);
+        let saturated = i % 3 != 2;
+        let cfg = gen_mom_cfg(&mut rng, saturated);
+        let a = run_mom(&cfg);
+        let b = run_mom(&cfg.mirrored());
+        println!("MM mom-{}-{} sat={} steps={} mirror={} {}", seed, i, if saturated { 1 } else { 0 }, mom_steps_s(&a), mom_steps_s(&b), cfg.line());
+    }
+}
+
 enum Hist {
     Book(BookHeader, Vec<Op>),
     Env(EnvHeader, Vec<EOp>),
@@ -475,6 +504,8 @@ fn main() {
         "env-gen" => env_gen(&m),
         "trunc" => trunc(&m),
         "sim-gen" => sim_gen(&m),
+        "agent-audit" => agent_audit(&m),
+        "momentum" => momentum(&m),
         "shapes" => {
             let seed: u64 = m.get("seed").and_then(|s| s.parse().ok()).unwrap_or(1);
             let mut out = Vec::new();
